@@ -162,7 +162,7 @@ func (checker *Checker) VisitInterfaceDeclaration(declaration *ast.InterfaceDecl
 		if nestedComposite.Kind() == common.CompositeKindEvent {
 			checker.visitCompositeLikeDeclaration(nestedComposite)
 		}
-		if interfaceType.DefaultDestroyEvent != nil {
+		if interfaceType.DefaultDestroyEvent != nil && nestedComposite.IsResourceDestructionDefaultEvent() {
 			checker.checkDefaultDestroyEvent(interfaceType.DefaultDestroyEvent, nestedComposite, interfaceType, declaration)
 		}
 	}
